@@ -132,15 +132,31 @@ class Analysis:
 
     def promoted_value(self, body):
         """A promoted constant: recognise RangeInclusive { start, end, .. } / RangeInclusive::new(lo, hi)."""
+        # locals that hold an integer constant, possibly widened (`MIN_INTEGER as i64`)
+        consts = {}
+        for blk in body.blocks:
+            for s in blk["s"]:
+                if s["k"] == "assign" and not s["p"][1] and s["r"]["k"] in ("use", "cast") \
+                        and s["r"].get("ck") in (None, "IntToInt") and isinstance(s["r"].get("o"), dict):
+                    k = s["r"]["o"].get("k") or {}
+                    if "int" in k:
+                        consts[s["p"][0]] = k["int"]
+
+        def val(o):
+            k = o.get("k") or {}
+            if "int" in k:
+                return k["int"]
+            p = mir.op_place(o)
+            return consts.get(p[0]) if p is not None and not p[1] else None
         for blk in body.blocks:
             for s in blk["s"]:
                 if s["k"] == "assign" and s["r"]["k"] == "agg" and s["r"].get("adt", "").endswith("RangeInclusive"):
-                    ops = [o.get("k", {}).get("int") for o in s["r"]["ops"][:2]]
+                    ops = [val(o) for o in s["r"]["ops"][:2]]
                     if None not in ops:
                         return ("range", ops[0], ops[1])
             t = blk["t"]
             if t["k"] == "call" and (t.get("cpath") or "").endswith("RangeInclusive::<Idx>::new"):
-                ops = [a.get("k", {}).get("int") for a in t["args"][:2]]
+                ops = [val(a) for a in t["args"][:2]]
                 if None not in ops:
                     return ("range", ops[0], ops[1])
         return TOP
